@@ -878,6 +878,25 @@ def _check_real_wrappers(vs, stats):
         return st.transform(X), want
     cases.append(("SkBaseTransformStacking.transform:not-concatenation", "stacking[12 members, models_10__model__alpha set]",
                   twelve))
+    # one set_params call that REPLACES the model and configures it (what a grid over {'model': [...], 'model__alpha':
+    # [...]} does): the nested values are for the model given in the same call, in either key order, and the wrapper is
+    # then transparent for that configured model; the replaced model keeps its own parameters
+    def replace_and_configure(first):
+        def run():
+            old = Ridge(alpha=1.0)
+            le = SkBaseTransformLearner(old, method="predict")
+            keys = [("model", Ridge(alpha=2.0)), ("model__alpha", 500.0)]
+            le.set_params(**dict(keys if first == "model" else keys[::-1]))
+            yy = 3.0 * yc + X[:, 0]
+            le.fit(X, yy)
+            want = Ridge(alpha=500.0).fit(X, yy).predict(X)
+            if old.alpha != 1.0:
+                return numpy.array([[old.alpha]]), numpy.array([[1.0]])
+            return le.transform(X), want
+        return run
+    for first in ("model", "model__alpha"):
+        cases.append(("SkBaseTransformLearner.set_params:model-and-nested-keys-in-one-call",
+                      "learner[set_params(model=Ridge(2), model__alpha=500), %s first]" % first, replace_and_configure(first)))
     learner_case("learner[OneHotEncoder sparse output]", OneHotEncoder, "transform", X)
     learner_case("learner[MaxAbsScaler on sparse rows]", MaxAbsScaler, "transform", scipy.sparse.csr_matrix(X))
     learner_case("learner[StandardScaler]", StandardScaler, "transform", X)
